@@ -513,26 +513,35 @@ class TextXVisitor(RRELVisitor):
                 else:
                     # Recursively append all referenced classes.
                     def _add_reffered_classes(rule, inh_by, start=False):
+                        """
+                        Returns True if the result of the abstract rule is
+                        always found inside `rule`, i.e. the rest of the
+                        enclosing sequence can't influence the hierarchy.
+                        """
                         if rule.root and not start:
                             _determine_rule_type(rule._tx_class)
-                            if (
-                                rule._tx_class._tx_type != RULE_MATCH
-                                and rule._tx_class not in inh_by
-                            ):
-                                inh_by.append(rule._tx_class)
+                            if rule._tx_class._tx_type != RULE_MATCH:
+                                if rule._tx_class not in inh_by:
+                                    inh_by.append(rule._tx_class)
                                 # stop after first added/found type
                                 return True
-                        else:
-                            is_ordered_choice = isinstance(rule, OrderedChoice)
-                            inh_added = False
+                            return False
+                        if isinstance(rule, OrderedChoice):
+                            # Every alternative contributes. The enclosing
+                            # sequence continues if some alternative can
+                            # match without a non-match rule.
+                            found_in_all = True
                             for r in rule.nodes:
-                                inh_added |= _add_reffered_classes(r, inh_by)
-                                if inh_added and not is_ordered_choice:
-                                    # If not ordered choice we should get out
-                                    # early as the rest of the rule shouldn't
-                                    # influence the inheritance hierarchy.
-                                    break
-                            return inh_added
+                                if not _add_reffered_classes(r, inh_by):
+                                    found_in_all = False
+                            return found_in_all
+                        for r in rule.nodes:
+                            if _add_reffered_classes(r, inh_by) and not isinstance(
+                                rule, (Optional, ZeroOrMore)
+                            ):
+                                # The rest of the rule shouldn't influence
+                                # the inheritance hierarchy.
+                                return True
                         return False
 
                     _add_reffered_classes(rule, cls._tx_inh_by, start=True)
